@@ -164,9 +164,12 @@ def cliReadConfigAndRunEngineExpected : String :=
   "func() {flag.Args readConfig newLogger startMonitoring defer{$0} newEngineMetrics startReport engine.New ctx($1, $2 <- context.Background()) defer{$2} go{runEngine($1)} awaitPandoraTermination($2)}"
 theorem cliReadConfigAndRunEngine_eq : cliReadConfigAndRunEngine = cliReadConfigAndRunEngineExpected := rfl
 
-/-- `phoutAggregator.handle`: encode into the reused line buffer, terminator, `writer.Write`, reset the buffer, and only THEN hand the sample back to the pool; the write error is returned — model `St.handle`, `C06SinkFail.handle` -/
+/-- `phoutAggregator.handle`: encode into the reused line buffer, terminator, (89739df) flush first when the line does not
+fit into what is left of the writer's buffer — only whole lines reach the destination, `Model.C06WholeLines.handle true` —,
+`writer.Write`, reset the buffer, and only THEN hand the sample back to the pool; the write error is returned — model
+`St.handle`, `C06SinkFail.handle` -/
 def phoutHandleExpected : String :=
-  "func($0 *Sample) error {appendPhout set($1.buf=append($1.buf, '\\n')) $1.writer.Write set($1.buf=$1.buf[:0]) releaseSample return($2)}"
+  "func($0 *Sample) error {appendPhout set($1.buf=append($1.buf, '\\n')) $1.writer.Available if($1.writer.Available() < len($1.buf)){$1.writer.Flush} $1.writer.Write set($1.buf=$1.buf[:0]) releaseSample return($2)}"
 theorem phoutHandle_eq : phoutHandle = phoutHandleExpected := rfl
 
 /-- `Acquire`: a pooled sample is overwritten as a whole (`*s = Sample{…}`): id, all ten fields and the error read as zero on a sample a gun gets — what `Model.Phout.Sample` values built by setters assume -/
